@@ -103,7 +103,15 @@ def writer_loop(interp, st, seq, fr):
         delta = _since(s, m)
         if not delta:
             continue
-        if len(delta) == 1 and isinstance(delta[0], Enc) and delta[0].args and delta[0].args[0] is item:
+        arg0 = delta[0].args[0] if len(delta) == 1 and isinstance(delta[0], Enc) and delta[0].args else None
+        if arg0 is not None and arg0 is not item and getattr(arg0, "item", None) is item and hasattr(arg0, "derive"):
+            # the item wrapped with loop-invariant context (e.g. a record with the batch's base values)
+            run = Enc(("run", delta[0].codec), arg0.derive(seq))
+            from spec import kafka
+            for f in kafka.length_facts(run):
+                ctx.assume(f)
+            s.emit(run)
+        elif len(delta) == 1 and isinstance(delta[0], Enc) and delta[0].args and delta[0].args[0] is item:
             run = Enc(("run", delta[0].codec), seq)
             from spec import kafka
             for f in kafka.length_facts(run):
